@@ -118,6 +118,12 @@ class ClassInfo(object):
         for c in self.mro:
             if isinstance(c, ClassInfo) and name in c.methods:
                 return c.methods[name]
+        # a private method that never needed its instance may have been moved to module level (roles.py restored its name)
+        for c in self.mro:
+            if isinstance(c, ClassInfo):
+                for owner, now, cur, old in getattr(c.module, "restored_names", ()):
+                    if old == name and owner == c.name and now == "" and name in c.module.functions:
+                        return c.module.functions[name]
         return None
 
     def lookup_prop(self, name, which):
@@ -496,8 +502,18 @@ class Program(object):
         qn = short if short.startswith(PKG + ".") else "%s.%s" % (PKG, short)
         if qn in self.functions:
             return self.functions[qn]
-        # a module level function that was moved and is re-exported by an import of its old module
         modname, _, fname = qn.rpartition(".")
+        # a private method moved to module level, or a module level private function moved into a class (roles.py)
+        if modname in self.classes:
+            m = self.classes[modname].lookup_method(fname)
+            if m is not None:
+                return m
+        mod0 = self.modules.get(modname)
+        if mod0 is not None:
+            for owner, now, cur, old in getattr(mod0, "restored_names", ()):
+                if old == fname and owner == "" and now in mod0.classes and fname in mod0.classes[now].methods:
+                    return mod0.classes[now].methods[fname]
+        # a module level function that was moved and is re-exported by an import of its old module
         mod = self.modules.get(modname)
         if mod is not None and fname in mod.imports:
             try:
